@@ -82,11 +82,14 @@ def diff_views(a, b, keys=('tracecount', 'structured', 'ilines', 'xlines', 'zsli
     return out
 
 
-def restrict(v, box):
-    """view of the source restricted to index box ((i0,i1),(x0,x1),(z0,z1)) - what a crop must equal"""
+def restrict(v, box, mask=None):
+    """view of the source restricted to index box ((i0,i1),(x0,x1),(z0,z1)) - what a crop must equal; `mask`: the
+    populated grid positions of an irregular source (the crop holds the live traces of the box)"""
     (i0, i1), (x0, x1), (z0, z1) = box
     n1 = len(v['xlines'])
-    out = {'is2d': False, 'tracecount': (i1 - i0) * (x1 - x0), 'structured': True,
+    live = (i1 - i0) * (x1 - x0) if mask is None else \
+        int(np.count_nonzero(np.asarray(mask).reshape(len(v['ilines']), n1)[i0:i1, x0:x1]))
+    out = {'is2d': False, 'tracecount': live, 'structured': live == (i1 - i0) * (x1 - x0),
            'ilines': v['ilines'][i0:i1], 'xlines': v['xlines'][x0:x1], 'zslices': v['zslices'][z0:z1],
            'volume': v['volume'][i0:i1, x0:x1, z0:z1], 'hash': v['hash'], 'stored': v['stored']}
     if 'tracefields' in v:
